@@ -11,7 +11,7 @@ Definition reached (q n : nat) (ps : list (N * tpin)) (i : list (N * bool)) (evs
 
 (* at most one current operation per cid *)
 Theorem one_op_per_cid q n ps i evs : NoDup (akeys (table (reached q n ps i evs))).
-Proof. exact (inv_nodup _ (run_inv evs _ (init_inv q n ps i))). Qed.
+Proof. exact (inv_nodup _ (reached_inv q n ps i evs)). Qed.
 Print Assumptions one_op_per_cid.
 
 (* a call in flight always belongs to the operation currently tracked for its cid, which is in progress:
@@ -19,13 +19,13 @@ Print Assumptions one_op_per_cid.
 Theorem cancelled_op_never_cleans_successor q n ps i evs cl : In cl (calls (reached q n ps i evs)) ->
   exists o, aget (ccid cl) (table (reached q n ps i evs)) = Some o /\ oid o = coid cl /\ oph o = PInProgress /\
             otyp o = kind_type (ckd cl).
-Proof. exact (inv_calls _ (run_inv evs _ (init_inv q n ps i)) cl). Qed.
+Proof. exact (inv_calls _ (reached_inv q n ps i evs) cl). Qed.
 Print Assumptions cancelled_op_never_cleans_successor.
 
 (* queued / in-progress only while an operation is pending: at quiescence every remaining operation is a failed one *)
 Theorem quiescent_only_failed_ops q n ps i evs c o : quiescent (reached q n ps i evs) = true ->
   aget c (table (reached q n ps i evs)) = Some o -> oph o = PError.
-Proof. exact (fun Q => quiescent_errors _ (run_inv evs _ (init_inv q n ps i)) Q c o). Qed.
+Proof. exact (fun Q => quiescent_errors _ (reached_inv q n ps i evs) Q c o). Qed.
 Print Assumptions quiescent_only_failed_ops.
 
 (* converged or error, for every cid the shared state assigns to this peer (or to everyone) - even when the daemon
@@ -34,14 +34,7 @@ Theorem tracker_quiescent_converged q n ps i evs c p : wf_pinset ps ->
   let s := reached q n ps i evs in
   quiescent s = true -> aget c (pinset s) = Some p -> pmeta p = false -> premote p = false ->
   aget c (ipfs s) = Some (pdirect p) \/ is_error (status_of s c) = true.
-Proof.
-  exact (fun W Q Hp Hm Hr =>
-    match proj1 (converged false _ (run_inv evs _ (init_inv q n ps i))
-                  (run_linv false evs _ (init_inv q n ps i) (init_linv false q n ps i W) (fun E => match Bool.diff_false_true E with end)) Q c)
-                p Hp (pin_local _ Hm Hr) with
-    | or_introl H => or_introl (ipfs_has_eq _ _ _ H)
-    | or_intror H => or_intror H end).
-Qed.
+Proof. exact (converged_local_l q n ps i evs c p). Qed.
 Print Assumptions tracker_quiescent_converged.
 
 (* removed cids are unpinned or in error; a pin that moved to other peers is unpinned unless that unpin failed
@@ -52,12 +45,7 @@ Theorem tracker_quiescent_converged_removed q n ps i evs c : wf_pinset ps -> For
   (aget c (last s) = Some IUntrack -> aget c (ipfs s) = None \/ is_error (status_of s c) = true) /\
   (forall p, aget c (last s) = Some (ITrack p) -> pmeta p = false -> premote p = true ->
      aget c (ipfs s) = None \/ exists o, aget c (table s) = Some o /\ otyp o = ORemote /\ oph o = PError).
-Proof.
-  exact (fun W F Q =>
-    let H := converged true _ (run_inv evs _ (init_inv q n ps i))
-               (run_linv true evs _ (init_inv q n ps i) (init_linv true q n ps i W) (fun _ => F)) Q c in
-    conj (proj1 (proj2 H) eq_refl) (proj2 (proj2 H) eq_refl)).
-Qed.
+Proof. exact (converged_removed_l q n ps i evs c). Qed.
 Print Assumptions tracker_quiescent_converged_removed.
 
 (* Track of a pin allocated here and Untrack: after a nil return the operation is queued or in progress (a new one, or
@@ -70,7 +58,7 @@ Theorem enqueue_full_is_reported q n ps i evs e c typ :
   let s := reached q n ps i evs in
   exists o, aget c (table (fst (step s e))) = Some o /\ otyp o = typ /\
     match snd (step s e) with RFull => oph o = PError | ROk => live (oph o) = true end.
-Proof. exact (instr_reported _ e c typ (run_inv evs _ (init_inv q n ps i))). Qed.
+Proof. exact (instr_reported _ e c typ (reached_inv q n ps i evs)). Qed.
 Print Assumptions enqueue_full_is_reported.
 
 (* a recover round: from a quiescent state, RecoverAll (any visiting order) that returns nil, then every call in
@@ -83,16 +71,7 @@ Theorem tracker_recover_heals q n ps i evs ord s1 evs2 c : wf_pinset ps ->
   (forall p, aget c (pinset s) = Some p -> pmeta p = false -> premote p = false ->
      ~ (pdirect p = true /\ aget c (ipfs s) = Some false) -> aget c (ipfs (run s1 evs2)) = Some (pdirect p)) /\
   (Forall tracker_ev evs -> aget c (last s) = Some IUntrack -> aget c (ipfs (run s1 evs2)) = None).
-Proof.
-  exact (fun W Q Hs F2 Q2 =>
-    conj (fun p Hp Hm Hr Hn => ipfs_has_eq _ _ _
-            (proj1 (recover_heals false _ ord s1 evs2 (run_inv evs _ (init_inv q n ps i))
-               (run_linv false evs _ (init_inv q n ps i) (init_linv false q n ps i W) (fun E => match Bool.diff_false_true E with end))
-               Q Hs F2 Q2 c) p Hp (pin_local _ Hm Hr) Hn))
-         (fun F => proj2 (recover_heals true _ ord s1 evs2 (run_inv evs _ (init_inv q n ps i))
-               (run_linv true evs _ (init_inv q n ps i) (init_linv true q n ps i W) (fun _ => F))
-               Q Hs F2 Q2 c) eq_refl)).
-Qed.
+Proof. exact (recover_heals_l q n ps i evs ord s1 evs2 c). Qed.
 Print Assumptions tracker_recover_heals.
 
 (* the pin re-issued by Recover / RecoverAll is the one recorded in the shared state (mode and options) *)
@@ -100,10 +79,7 @@ Theorem recover_reissues_recorded_pin q n ps i evs c x o : wf_pinset ps ->
   let s := reached q n ps i evs in
   aget c (table (fst (recover_with s c x))) = Some o -> oid o = next s -> otyp o = OPin ->
   aget c (pinset s) = Some (opin o).
-Proof.
-  exact (fun W => recover_reissues _ c x o (run_inv evs _ (init_inv q n ps i))
-    (li_keyed _ _ (run_linv false evs _ (init_inv q n ps i) (init_linv false q n ps i W) (fun E => match Bool.diff_false_true E with end)) c)).
-Qed.
+Proof. exact (recover_reissues_l q n ps i evs c x o). Qed.
 Print Assumptions recover_reissues_recorded_pin.
 
 (* non-vacuity: a direct-mode pin recorded in the state and missing from the daemon is re-pinned direct by a recover
